@@ -768,6 +768,28 @@ def gen_csv_cases(ctx, out, earlies):
         earlies.append((c, e))
         ctx.count('csv-layout:' + (args.get('data_structure') or 'guessed'))
     # scan_header alone on the same kinds of files is covered through from_csv; degenerate files:
+    # more rows than n_scan = 100: only the first 100 are scanned
+    for numeric in (True, False):
+        for d in (',', ' '):
+            pool = list(range(6)) if numeric else ['a', 'b', 'cx', 'By', 'A']
+            edges = rand_edges(rng, pool, rng.randint(101, 140), 'small')
+            rows = [[a, b, fmt_w(w)] for a, b, w in edges]
+            text, _ = csv_text(rows, d, ['# long file'], True)
+            c, e = csv_case(text, None, {}, rand_flags(rng), [(str(a), str(b), w) for a, b, w in edges], tag())
+            out.append(c)
+            earlies.append((c, e))
+            ctx.count('csv-more-than-n_scan-rows')
+    # a row beyond the scanned part with another number of fields (run line only)
+    rows = [[i % 4, (i + 1) % 4] for i in range(104)] + [[1, 2, 3]]
+    text, _ = csv_text(rows, ' ', [], True)
+    c, e = csv_case(text, None, {}, mkflags(directed=True), None, tag())
+    out.append(c)
+    earlies.append((c, None))
+    rows = [['a%d' % (i % 4), 'b'] for i in range(104)] + [['c', 'd', '3']]
+    text, _ = csv_text(rows, ',', [], True)
+    c, e = csv_case(text, None, {}, mkflags(directed=True), None, tag())
+    out.append(c)
+    earlies.append((c, None))
     # two candidate delimiters are consistent (the repo's own test file 'f, e, 5'): the tie rule of the inference
     for _ in range(40 if quick else 400):
         d2 = rng.choice([', ', '; ', ',\t', ' ,', ';;', ', ;'])
